@@ -12,7 +12,7 @@ Two halves (DESIGN.md §6 C14):
      verified Lean monitor `mutexTrace`, and replayed action by action through the Lean protocol machine
      (`stepAct`), whose final file system and process states must equal the real ones.
 
-The driver is run as a script (`lake env lean --run Driver/Xfer.lean`): the lakefile has no exe for it.
+The driver is run as a script (`lake env lean --run Driver/script/Xfer.lean`): the lakefile has no exe for it.
 """
 import ast
 import errno
@@ -58,9 +58,22 @@ MIB = 1048576
 # ----------------------------------------------------------------------------------------------------------------
 # driver (script mode)
 
+def driver_cmd():
+    """the compiled exe if the lakefile has one (`drv_xfer`), else the same source run as a script.  The source
+    lives in Driver/script/ because setup.sh builds an exe for every Driver/*.lean and the lakefile has none for it."""
+    exe = os.path.join(vlib.LEAN, ".lake", "build", "bin", "drv_xfer")
+    for rel in ("Driver/Xfer.lean", "Driver/script/Xfer.lean"):
+        src = os.path.join(vlib.LEAN, rel)
+        if os.path.exists(src):
+            if os.path.exists(exe) and os.path.getmtime(exe) >= os.path.getmtime(src):
+                return [exe]
+            return ["lake", "env", "lean", "--run", rel]
+    raise RuntimeError("C14: driver source Driver/script/Xfer.lean not found")
+
+
 def driver(lines, timeout=900):
     data = "\n".join(lines) + "\n"
-    p = subprocess.run(["lake", "env", "lean", "--run", "Driver/Xfer.lean"], cwd=vlib.LEAN, input=data,
+    p = subprocess.run(driver_cmd(), cwd=vlib.LEAN, input=data,
                        stdout=subprocess.PIPE, stderr=subprocess.PIPE, text=True, timeout=timeout)
     if p.returncode != 0:
         raise RuntimeError(f"script driver Driver/Xfer.lean failed: {p.stderr[-800:]} {p.stdout[-300:]}")
@@ -864,10 +877,6 @@ def judge_run(ctx, run, entries, final, extra, exitcodes):
     return ev
 
 
-def lock_free_afterwards(ctx, tree_paths, h):
-    pass
-
-
 def run_lock_batch(ctx, runs, width=6, budget=240):
     """execute runs in groups of `width` concurrent runs; judge; one driver call for monitor + model replay"""
     impl()
@@ -974,7 +983,7 @@ def correspondence(ctx):
         ctx.extra["exhaustive"] = {"pre-existing states x ops (single call)": len(ex)}
         for i in range(0, len(ex), 800):
             run_seq_cases(ctx, ex[i:i + 800], limit)
-        nseq = 30000 if thorough else 600
+        nseq = 30000 if thorough else 1500
         seq = [gen_seq_case(rng) for _ in range(nseq)]
         for i in range(0, len(seq), 1000):
             run_seq_cases(ctx, seq[i:i + 1000], limit)
@@ -989,9 +998,9 @@ def correspondence(ctx):
             slow = [gen_lock_run(rng, "real", rng.randint(2, 4)) for _ in range(64)] \
                 + [gen_lock_run(rng, "timeout-real", rng.randint(2, 3)) for _ in range(16)]
         else:
-            runs = sites + [gen_lock_run(rng, "plain") for _ in range(12)] + [gen_lock_run(rng, "fault") for _ in range(20)] \
-                + [gen_lock_run(rng, "timeout", rng.randint(2, 4)) for _ in range(4)]
-            slow = [gen_lock_run(rng, "real", rng.randint(2, 3)) for _ in range(4)] \
+            runs = sites + [gen_lock_run(rng, "plain") for _ in range(30)] + [gen_lock_run(rng, "fault") for _ in range(60)] \
+                + [gen_lock_run(rng, "timeout", rng.randint(2, 4)) for _ in range(8)]
+            slow = [gen_lock_run(rng, "real", rng.randint(2, 3)) for _ in range(6)] \
                 + [gen_lock_run(rng, "timeout-real", 2) for _ in range(2)]
         run_lock_batch(ctx, runs, width=4)
         run_lock_batch(ctx, slow, width=8)
